@@ -26,6 +26,41 @@ def ParamObj():
     return Obj('taskchain.parameter:Parameter', **{f: S(k, f'p.{f}') for f, k in PARAM_FIELDS.items()})
 
 
+def gen_default(g, sofar):
+    """bounded search: the default equals the value half of the time (also `==`-equal values of another type)"""
+    import copy
+    v = sofar.get('p._value')
+    c = g.r.random()
+    if c < 0.4:
+        return copy.deepcopy(v)
+    if c < 0.5 and isinstance(v, (bool, int, float)):
+        return g.r.choice([int(v), float(v), bool(v)])
+    if c < 0.6 and isinstance(v, str):
+        from pathlib import Path as P_
+        return P_(v)
+    return g.dyn()
+
+
+def gen_namespaced_inputs(g, sofar):
+    """bounded search for K9: input names inside (nested, repeated) namespaces"""
+    ns = sofar.get('task.cfg.namespace')
+    r = g.r
+    names = ['a', 'b', 'grp:c', 'm::d', 'm::n::e']
+    if ns:
+        names = [f'{ns}::{x}' for x in names + [f'{ns}::f', f'q::{ns}::g', ns]]
+    out = {}
+    for n in r.sample(names, r.choice([0, 1, 2, 3, 4])):
+        out[n] = r.choice(['k1', 'k2', 'k3'])
+    return out
+
+
+def gen_namespace(g, sofar):
+    return g.r.choice([None, None, 'n', 'a::b', 'x', 'n::n'])
+
+
+PARAM_GENS = {'p.default': gen_default}
+
+
 # ------------------------------------------------------------------------------------------------
 # spec functions (frozen 1.4.0)
 # ------------------------------------------------------------------------------------------------
@@ -193,14 +228,14 @@ CONTRACTS = [
     Contract(
         id='K4', target='taskchain.parameter:Parameter.value',
         props={'C12': 'decisive', 'C02': 'supporting', 'C03': 'supporting'},
-        inputs={'self': ParamObj()},
+        inputs={'self': ParamObj()}, native_gens=PARAM_GENS,
         ensures={'eq_spec': 'k4_eq_spec'},
         canary='k4_canary',
     ),
     Contract(
         id='K2', target='taskchain.parameter:AbstractParameter.value_repr',
         props={'C12': 'decisive', 'C02': 'supporting', 'C03': 'supporting'},
-        inputs={'self': ParamObj()},
+        inputs={'self': ParamObj()}, native_gens=PARAM_GENS,
         callees={'taskchain.parameter:Parameter.value': ByContract(spec='param_value'),
                  'taskchain.utils.clazz:repr_from_instantiation': ByContract(spec='enc')},
         ensures={'eq_spec': 'k2_eq_spec'},
@@ -209,7 +244,7 @@ CONTRACTS = [
     Contract(
         id='K3', target='taskchain.parameter:AbstractParameter.repr',
         props={'C12': 'decisive', 'C02': 'supporting', 'C03': 'supporting'},
-        inputs={'self': ParamObj()},
+        inputs={'self': ParamObj()}, native_gens=PARAM_GENS,
         callees={'taskchain.parameter:Parameter.value': ByContract(spec='param_value'),
                  'taskchain.parameter:AbstractParameter.value_repr': ByContract(spec='value_text')},
         ensures={'eq_spec': 'k3_eq_spec'},
@@ -227,8 +262,10 @@ CONTRACTS = [
     Contract(
         id='K9', target='taskchain.chain:TaskParameterConfig.get_name_for_persistence',
         props={'C12': 'decisive', 'C02': 'supporting', 'C03': 'supporting'},
-        inputs={'self': Obj('taskchain.chain:TaskParameterConfig', input_tasks=SymDict(Str, Str, 'inputs')),
-                'task': Abs(TaskForKeyIface, 'task')},
+        inputs={'task': Abs(TaskForKeyIface, 'task'),
+                'self': Obj('taskchain.chain:TaskParameterConfig', input_tasks=SymDict(Str, Str, 'inputs'))},
+        call=['self', 'task'],
+        native_gens={'inputs': gen_namespaced_inputs, 'task.cfg.namespace': gen_namespace},
         requires=['k9_names_prefixed'],
         ensures={'eq_spec': 'k9_eq_spec'},
         canary='k9_canary', l0=['A-sha', 'A-sorted'],
